@@ -24,6 +24,9 @@ def quadrant_flights(rng, n):
         sy, sx = [(1, 1), (1, -1), (-1, 1), (-1, -1)][i % 4]
         f.lat = Fr(RX[0]) + sy * Fr(150 + rng.below(450), 1000); f.lon = Fr(RX[1]) + sx * Fr(150 + rng.below(650), 1000)
         f.callsign = "Q%s%d" % ("NE NW SE SW".split()[i % 4], i)
+        # every second aircraft climbs or descends: the two stored reports of its pair carry different altitudes, and the table must show the one
+        # the tracker reports (seed C18_f: the table re-derived the altitude from the other report)
+        if i % 2 == 0: f.climb = [100, -25, 1000, -500, 25][(i // 2) % 5]
         fl.append(f)
     return fl
 
